@@ -9,6 +9,138 @@ ROOTS = ['Parser::parse', 'Lexer::lex', 'Lexer::next', 'Desugarer::desugar', 'De
 POS_FIELDS = ('lineno', 'col_begin', 'col_end', 'ln_begin', 'ln_end')
 
 
+LEX = 'crates/erg_parser/lex.rs'
+
+
+def _chars(n):
+    return {x['v']['char'] for x in T.walk(n) if isinstance(x.get('v'), dict) and 'char' in x['v']}
+
+
+def _touches_indent(n):
+    """sites that decide block structure: indent_stack.push/pop, or building an Indent / Dedent token"""
+    out = []
+    for x in T.walk(n):
+        if x.get('k') == 'MCall' and x.get('n') in ('push', 'pop', 'clear', 'truncate'):
+            r = T.peel(x['r'])
+            if r.get('k') == 'Field' and r.get('n') == 'indent_stack':
+                out.append((x.get('l'), 'indent_stack.%s' % x['n']))
+        if x.get('k') in ('Call', 'MCall') and T.norm(T.callee(x) or '').split('::')[-1] in ('emit_singleline_token', 'accept', 'emit_token'):
+            for a in x['a']:
+                a = T.peel(a)
+                if a.get('k') == 'Path' and (a.get('d') or '').split('::')[-1] in ('Indent', 'Dedent'):
+                    out.append((x.get('l'), 'emit %s' % a['d'].split('::')[-1]))
+    return out
+
+
+def layout_rules(chk, fx):
+    chk.rule('C10-R3', 'a line that holds only spaces and/or a line comment takes no part in block structure: every site of the lexer that pushes / pops indent_stack or builds an '
+                       'Indent / Dedent token lies behind the line-holds-no-code filter at the head of Lexer::lex_space_indent_dedent (an `if` on a Lexer method that inspects '
+                       "'#', '\\n' and ' ', whose branch returns None without touching the indentation state), except the end-of-input flush in Lexer::next")
+    chk.rule('C10-R4', "a `#[ .. ]#` comment can be followed by code on the same line, so wherever the lexer decides on the character '#' it also looks for the '[' that follows; "
+                       "a test of '#' alone treats such a line as holding no code")
+    fns = {T.norm(f['path']): f for f in fx.fns(LEX)}
+    head = fns.get('Lexer::lex_space_indent_dedent')
+    if not chk.need(head is not None and 'Lexer::next' in fns, 'Lexer::lex_space_indent_dedent / Lexer::next not found'):
+        return
+    # --- R3: sites
+    sites = {nm: _touches_indent(f['body']) for nm, f in fns.items()}
+    sites = {k: v for k, v in sites.items() if v}
+    chk.floor('lexer sites that decide block structure', sum(len(v) for v in sites.values()), 8)
+    g, _ = CG.graph(fx, 'erg_parser')
+    callers = {}
+    for a, bs in g.items():
+        for b in bs:
+            callers.setdefault(b, set()).add(a)
+    # the filter: first statement of lex_space_indent_dedent
+    body = head['body']
+    stmts = T.stmts_of(body) if hasattr(T, 'stmts_of') else []
+    first = T.unsemi(stmts[0]) if stmts else None
+    filt, filt_ok, why = None, False, 'the function does not start with an `if`'
+    if first is not None and first.get('k') == 'If':
+        cs = [c for c in T.calls(first['c']) if c.get('k') == 'MCall' and T.norm(T.callee(c) or '').startswith('Lexer::')]
+        for c in cs:
+            fn_ = fns.get(T.norm(T.callee(c)))
+            if fn_ and {'#', '\n', ' '} <= _chars(fn_['body']) and not _touches_indent(fn_['body']):
+                filt = T.norm(T.callee(c))
+        if filt is None:
+            why = 'its leading `if` does not call a Lexer method that inspects \'#\', \'\\n\' and \' \''
+        else:
+            rets = [r for r in T.walk(first['t']) if r.get('k') == 'Ret']
+            tail_none = False
+            tl = first['t'].get('e') if first['t'].get('k') == 'Block' else None
+            none_ret = [r for r in rets if r.get('x') is not None and T.show(T.peel(r['x'])).endswith('None')]
+            if _touches_indent(first['t']):
+                why = 'the branch taken for a line without code touches the indentation state'
+            elif not none_ret or len(none_ret) != len(rets) or tl is not None:
+                why = 'the branch taken for a line without code does not simply `return None`'
+            elif first.get('e'):
+                why = 'the filter has an else branch'
+            else:
+                filt_ok = True
+    if filt_ok:
+        chk.ok('C10-R3', 'filter', sample='lex_space_indent_dedent starts with `if let Some(..) = self.%s() { ..; return None }`' % filt.split('::')[-1])
+    else:
+        chk.bad('C10-R3', 'Lexer::lex_space_indent_dedent', 'filter', 'Lexer::lex_space_indent_dedent decides Indent / Dedent without first setting aside lines that hold only spaces '
+                'or a line comment (%s): adding a comment or a whitespace-only line with another indentation changes the block structure' % why, LEX, head['line'])
+    for nm, ss in sorted(sites.items()):
+        for line, what in ss:
+            if nm == 'Lexer::lex_space_indent_dedent':
+                if first is not None and any(x.get('l') == line for x in T.walk(first)) and filt_ok:
+                    chk.bad('C10-R3', nm, 'in-filter:%s' % what, '%s inside the no-code filter' % what, LEX, line)
+                else:
+                    chk.ok('C10-R3', (nm, what, line))
+            elif nm == 'Lexer::next':
+                chk.ok('C10-R3', (nm, what, line))       # end-of-input flush, checked below
+            elif callers.get(nm, set()) <= {'Lexer::lex_space_indent_dedent'} and callers.get(nm):
+                chk.ok('C10-R3', (nm, what, line))
+            else:
+                chk.bad('C10-R3', nm, 'outside:%s' % what, '%s (%s) is reachable without passing the no-code filter of lex_space_indent_dedent: callers %s'
+                        % (nm, what, sorted(callers.get(nm, ()))), LEX, line)
+    # Lexer::next: its indentation sites must be in the arm taken at end of input (consume() == None)
+    nxt = fns['Lexer::next']
+    for line, what in sites.get('Lexer::next', []):
+        okk = False
+        for n, ctx in T.walk_ctx(nxt['body']):
+            if n.get('l') == line and n.get('k') in ('Call', 'MCall'):
+                for c in ctx:
+                    if c[0] == 'arm' and 'None' in [v.split('::')[-1] for v in T.pat_variants(c[2]['pat'])]:
+                        okk = True
+        if not okk:
+            chk.bad('C10-R3', 'Lexer::next', 'not-eof:%s' % what, 'Lexer::next: %s outside the end-of-input arm' % what, LEX, line)
+    # the filter must run before anything else in next(): lex_space_indent_dedent is the first call
+    # --- R4
+    n4 = 0
+    for nm, f in sorted(fns.items()):
+        if not nm.startswith('Lexer::'):
+            continue
+        if nm == 'Lexer::next':
+            for n, ctx in T.walk_ctx(f['body']):
+                if isinstance(n.get('v'), dict) and n['v'].get('char') == '#':
+                    n4 += 1
+                    scope = None
+                    for c in reversed(ctx):
+                        if c[0] == 'if':
+                            scope = c[1] if False else None
+                    # nearest enclosing `if` / arm holding the literal
+                    enc = [x for x in T.walk(f['body']) if x.get('k') == 'If' and any(y is n for y in T.walk(x['c']))]
+                    arms = [a for m in T.walk(f['body']) if m.get('k') == 'Match' for a in m['arms'] if any(y is n for y in T.walk(a['pat']))]
+                    holder = (enc[-1] if enc else None) or (arms[-1] if arms else None)
+                    if holder is not None and '[' in _chars(holder):
+                        chk.ok('C10-R4', (nm, n.get('l')))
+                    else:
+                        chk.bad('C10-R4', nm, 'hash-alone', "%s tests the character '#' without looking for a following '['" % nm, LEX, n.get('l'))
+            continue
+        cs = _chars(f['body'])
+        if '#' in cs:
+            n4 += 1
+            if '[' in cs:
+                chk.ok('C10-R4', nm, sample="%s: '#' and '[' are inspected together" % nm)
+            else:
+                chk.bad('C10-R4', nm, 'hash-alone', "%s tests the character '#' but never the '[' that may follow: a line starting with `#[ .. ]#` and continuing with code is treated "
+                        'as a comment line' % nm, LEX, f['line'])
+    chk.floor("lexer functions deciding on '#'", n4, 3)
+
+
 def run(chk):
     fx = F.Facts()
     chk.rule('C10-R1', 'nothing reachable from Parser::parse / Lexer / Desugarer (resolved call graph over erg_parser and erg_common) calls a clock, an RNG, a randomly seeded '
@@ -84,5 +216,7 @@ def run(chk):
             chk.ok('C10-R2', 'Token::eq', sample='Token::eq compares %s' % sorted(fields))
         else:
             chk.bad('C10-R2', 'Token::eq', 'fields', 'Token::eq reads %s: token equality depends on positions' % sorted(fields), 'crates/erg_parser/token.rs', tok[0]['line'])
-    return ('Effect reachability over the resolved call graph (erg_parser + erg_common) from the parser entry points, and an ADT rule on derived equality of the syntax tree. '
-            'That the layout rewrites of the property yield the same tree is behaviour of the lexer/parser and is not decided.'), {}
+    layout_rules(chk, fx)
+    return ('Effect reachability over the resolved call graph (erg_parser + erg_common) from the parser entry points, an ADT rule on derived equality of the syntax tree, '
+            'and two structural rules on the lexer\'s indentation machinery (comment-only / blank lines are filtered before any Indent/Dedent decision; every `#` decision '
+            'separates `#[`). That the other layout rewrites of the property (line continuations, redundant parentheses) yield the same tree is not decided.'), {}
